@@ -18,7 +18,7 @@ BOUNDS = {
     "quick": "3 handlers (one asking for event details, each with a free 'raises' flag) subscribed with free subscription ids, then <= 4 steps over {unsubscribe handler i, UNSUBSCRIBED, ERROR for the unsubscribe, EVENT with free subscription id and one of 4 payload shapes}",
     "thorough": "3 handlers x <= 5 steps, 2 handlers x <= 6 steps, 4 handlers x <= 4 steps (4 handlers x 5 steps was measured: over the 40 min budget)",
 }
-EXPECT_COVERS = ["event:delivered", "event:shared-id", "event:racing-unsubscribe-dropped", "event:unknown-id-ProtocolError", "handler:raised", "unsubscribe:last", "unsubscribe:not-last"]
+EXPECT_COVERS = ["objform", "event:delivered", "event:shared-id", "event:racing-unsubscribe-dropped", "event:unknown-id-ProtocolError", "handler:raised", "unsubscribe:last", "unsubscribe:not-last"]
 BUDGET = {"quick": dict(wall_s=300, max_paths=40000, diff_samples=4), "thorough": dict(wall_s=2400, max_paths=500000)}
 
 SHAPES = [("none", None, None), ("args", [1, 2], None), ("kwargs", None, {"k": 1}), ("both", [1], {"k": 1, "z": 2})]
@@ -145,9 +145,19 @@ def history(sx, nh, steps, first, second=None, rpat=None):
     return [log]
 
 
+def object_options(sx):
+    """subscribe(obj) with decorated methods: each handler is subscribed with ITS decorator's options and receives the details argument it
+    asked for - nothing leaks from one decorated method to the next (harness shared with C04)"""
+    from . import c04
+    r = c04.object_options(sx, "subscribe")
+    sx.cover("objform")
+    return r
+
+
 def units(tier):
     U = []
     q = tier == "quick"
+    U.append(("objopts/subscribe", "object_options", dict(), dict(weight=3)))
     menu = ["event", "unsubscribe", "unsubscribed", "unsub-error"]
     for nh, steps in ((3, 4 if q else 5), (2, 4 if q else 6)) + (() if q else ((4, 4),)):
         for first in ("event", "unsubscribe"):
